@@ -100,7 +100,16 @@ func genC36(seed uint64, tier string) *Case {
 	n := g.Intn(9)
 	for i := 0; i < n; i++ {
 		c.Steps = append(c.Steps, Step{Op: "re", T: from[g.Intn(len(from))], S: []string{"own", "own", "other", "other", "nil", "malformed", "wrongtype", "empty", "sparse", "sparse"}[g.Intn(10)], F: g.Bool(0.12), K: g.Intn(3)})
+		if g.Bool(0.15) {
+			// a well-formed reply cut short on the wire (j bytes missing): malformed
+			st := &c.Steps[len(c.Steps)-1]
+			st.S = []string{"cut-own", "cut-other"}[g.Intn(2)]
+			st.J = 1 + g.Intn(30)
+		}
 	}
+	// the vote may find the node on its way out (1: it has left, 2: a Leave is in flight when
+	// the replies are counted): as long as it is not shut down it still holds the name
+	c.P["leave"] = int64(g.Pick(0, 0, 0, 1, 2))
 	return c
 }
 
@@ -116,6 +125,20 @@ func execC36(r *Run) {
 	self := c.MLNode(0)
 	other := c.MLNode(0)
 	other.Addr = net.ParseIP("10.9.9.9").To4()
+	leaveMode := r.C.P["leave"]
+	if leaveMode == 1 {
+		a := c.Go("leave", func() (int, error) { return 0, nd.S.Leave() })
+		if !a.done {
+			c.Advance(20 * time.Second)
+		}
+		if nd.S.State() != serf.SerfLeft {
+			leaveMode = 0 // (could not leave: nothing to add to this run)
+		} else {
+			r.Fault("vote-after-leave")
+		}
+		c.Bag = nil
+		drainAll(c, 0)
+	}
 	nd.conf().Conflict.NotifyConflict(self, other)
 	c.Wait()
 	q, ok := findQuery(c, 0, "_serf_conflict")
@@ -143,6 +166,18 @@ func execC36(r *Run) {
 				om.Port = local.Port + 1
 			}
 			payload = encAny(mtConflictResponse, om)
+		case "cut-own", "cut-other":
+			om := &serf.Member{Name: nd.Name, Addr: local.Addr, Port: local.Port}
+			if s.S == "cut-other" {
+				om.Addr = net.ParseIP("10.9.9.9").To4()
+			}
+			payload = encAny(mtConflictResponse, om)
+			cut := s.J
+			if cut >= len(payload) {
+				cut = len(payload) - 1
+			}
+			payload = payload[:len(payload)-cut]
+			r.Fault("truncated-reply")
 		case "sparse":
 			// a valid record that leaves address and port out: it names nobody's address,
 			// certainly not "the one of the previous reply"
@@ -191,7 +226,16 @@ func execC36(r *Run) {
 			v++
 		}
 	}
-	c.Advance(q.Timeout + 500*time.Millisecond)
+	if leaveMode == 2 && q.Timeout > 1500*time.Millisecond {
+		// the operator tells the node to leave one second before the replies are counted: the
+		// Leave is still waiting for its announcement to go out when the vote is decided
+		c.Advance(q.Timeout - time.Second)
+		c.Go("leave", func() (int, error) { return 0, nd.S.Leave() })
+		r.Fault("vote-during-leave")
+		c.Advance(1500 * time.Millisecond)
+	} else {
+		c.Advance(q.Timeout + 500*time.Millisecond)
+	}
 	for _, s := range late {
 		r.Fault("late-reply")
 		send(s)
@@ -207,7 +251,10 @@ func execC36(r *Run) {
 	if got {
 		nd.Up = false
 	}
-	r.State(fmt.Sprintf("%d/%d", v, m))
+	if leaveMode == 2 {
+		c.Advance(20 * time.Second) // the Leave runs to its end
+	}
+	r.State(fmt.Sprintf("%d/%d/%d", v, m, leaveMode))
 }
 
 // ---------------------------------------------------------------------------
